@@ -1,6 +1,81 @@
-(* C14 — Generated primary-backup store: replicas agree whenever the primary answers. *)
-From PGV Require Import C14.Model C14.Corr C14.Proofs.
+(* C14 — Generated primary-backup store: replicas agree whenever the primary answers.
+   This file holds only the property theorems (each closed by `exact <lemma>`), the full
+   statements as Definitions where only a part is proved, and non-vacuity Examples.
+   Model: C14/Model.v (tied to /repo/systems/pbkvs/pbkvs.go by the correspondence check, ./check C14). *)
+From Coq Require Import List String.
+From PGV Require Import C14.Model C14.Corr C14.Witness C14.Proofs C14.ProofsFF C14.ProofsLin.
+Import ListNotations.
 
-Theorem init_consistent : forall cfg input, ConsistencyOK cfg (init cfg input).
-Proof. exact init_consistent_lemma. Qed.
-Print Assumptions init_consistent.
+(* ---------------------------------------------------------------- full statements *)
+
+(* ConsistencyOK (pbkvs.tla, verbatim) holds in every state of every execution: any number of replicas,
+   clients and keys, every interleaving, every either/CHOOSE resolution, every sequence of crashes taken
+   through the spec's own mayFail choice. *)
+Definition consistency_ok_statement : Prop :=
+  forall cfg input evs s, Forall input_ok input ->
+    exec cfg (init cfg input) evs = Some s -> ConsistencyOK cfg s.
+
+(* no reachable state has an enabled step that fails an assertion or a TLA+ evaluation *)
+Definition assertion_free_statement : Prop :=
+  forall cfg input evs s e, Forall input_ok input ->
+    exec cfg (init cfg input) evs = Some s -> step cfg s e <> AssertFail /\ step cfg s e <> TypeErr.
+
+(* the history of client invocations and responses of every execution is linearizable *)
+Definition pb_linearizable_statement : Prop :=
+  forall cfg input evs s, Forall input_ok input ->
+    exec cfg (init cfg input) evs = Some s -> linearizable (hist s).
+
+(* ---------------------------------------------------------------- proved *)
+
+(* ConsistencyOK in every failure-free execution (EXPLORE_FAIL = FALSE): ANY number of replicas,
+   clients, keys, operations; every interleaving. *)
+Theorem consistency_ok_failure_free_partial : forall cfg input evs s,
+  explore_fail cfg = false -> Forall input_ok input ->
+  exec cfg (init cfg input) evs = Some s -> ConsistencyOK cfg s.
+Proof. exact consistency_failure_free_lemma. Qed.
+Print Assumptions consistency_ok_failure_free_partial.
+
+(* the checker used on both sides of the tie is complete: a history it rejects is not linearizable *)
+Theorem lin_checker_complete : forall h, linearizable h -> linearizable_b h = true.
+Proof. exact lin_complete_lemma. Qed.
+Print Assumptions lin_checker_complete.
+
+(* ---------------------------------------------------------------- refuted (known findings; replayed on the Go code) *)
+
+(* with 4 replicas an assertion of rcvSyncRespLoop fails after a failover sync is restarted *)
+Theorem assertion_free_refuted :
+  exists cfg input evs s e,
+    NR cfg = 4 /\ Forall input_ok input /\
+    exec cfg (init cfg input) evs = Some s /\ step cfg s e = AssertFail.
+Proof. exact assertion_free_refuted_lemma. Qed.
+Print Assumptions assertion_free_refuted.
+
+(* a client that re-sends a Put after the primary crashed has it applied twice *)
+Theorem pb_linearizable_refuted :
+  exists cfg input evs s,
+    Forall input_ok input /\ exec cfg (init cfg input) evs = Some s /\ ~ linearizable (hist s).
+Proof. exact pb_linearizable_refuted_lemma. Qed.
+Print Assumptions pb_linearizable_refuted.
+
+(* ---------------------------------------------------------------- non-vacuity *)
+(* a failure-free execution with 3 replicas in which the hypotheses of ConsistencyOK are met:
+   replica 1 is the spec's Primary, it is at sndResp, and the backups hold the new value *)
+Example c14_nonvacuous :
+  exists s, exec nv_cfg (init nv_cfg nv_input) nv_evs = Some s /\
+            r_pc (rl s 1) = SndResp /\ r_pc (rl s 2) = ReplicaLoop /\
+            fsv s 1 "KEY1"%string = "v1"%string /\ fsv s 2 "KEY1"%string = "v1"%string /\ fsv s 3 "KEY1"%string = "v1"%string.
+Proof.
+  destruct (exec nv_cfg (init nv_cfg nv_input) nv_evs) as [s|] eqn:E.
+  - exists s. split; [reflexivity|].
+    assert (H : match exec nv_cfg (init nv_cfg nv_input) nv_evs with
+                | Some s0 => (match r_pc (rl s0 1), r_pc (rl s0 2) with SndResp, ReplicaLoop => true | _, _ => false end
+                              && String.eqb (fsv s0 1 "KEY1") "v1" && String.eqb (fsv s0 2 "KEY1") "v1" && String.eqb (fsv s0 3 "KEY1") "v1")%bool
+                | None => false end = true) by (vm_compute; reflexivity).
+    rewrite E in H. clear E.
+    destruct (r_pc (rl s 1)); try discriminate H. destruct (r_pc (rl s 2)); try discriminate H.
+    cbn [andb] in H. apply Bool.andb_true_iff in H. destruct H as [H H3]. apply Bool.andb_true_iff in H. destruct H as [H1 H2].
+    apply String.eqb_eq in H1, H2, H3. auto.
+  - exfalso.
+    assert (H : match exec nv_cfg (init nv_cfg nv_input) nv_evs with Some _ => true | None => false end = true) by (vm_compute; reflexivity).
+    rewrite E in H. discriminate H.
+Qed.
